@@ -505,6 +505,29 @@ func (ev *evalCtx) call(e *Expr) Term {
 		ls := "(Array Ref (Array Int " + vs + "))"
 		lg := ev.tr.get(ev.cur, "G:sentlog_"+vs, ls)
 		return Term{app("select", app("select", lg, arg(0).S), arg(1).S), vs, gt}
+	case "cell":
+		// cell(ref, "Sort"): the scalar stored at ref
+		vs, gt, err := c.specSort(ev.strArg(e.Args[1]))
+		if err != nil {
+			ev.fail("%v", err)
+		}
+		return Term{app("select", ev.tr.get(ev.cur, "C:"+vs, "(Array Ref "+vs+")"), arg(0).S), vs, gt}
+	case "global":
+		// global("name"): current value of a package-level variable of the package under contract
+		name := ev.strArg(e.Args[0])
+		if c.home == nil {
+			ev.fail("no home package")
+		}
+		obj := c.home.Scope().Lookup(name)
+		if obj == nil {
+			ev.fail("unknown package-level variable %q", name)
+		}
+		vs := c.sortOf(obj.Type())
+		g := c.declConst("glob:"+c.home.Path()+"."+name, "Ref")
+		return Term{app("select", ev.tr.get(ev.cur, "C:"+vs, "(Array Ref "+vs+")"), g), vs, obj.Type()}
+	case "bitsof":
+		// bitsof("I"): bit width of an integer type parameter
+		return Term{q("bits:" + ev.strArg(e.Args[0])), "Int", nil}
 	case "heap":
 		// heap("dials.Dials.cbch") : the heap component as an array
 		name := ev.strArg(e.Args[0])
